@@ -132,10 +132,12 @@ def c18_special(pid, prop, tier, seed, b):
             d = {}
             if v.get('error'):
                 d['Error'] = v['error']
-                d['String'] = v.get('string', '')
+                d['String'] = v.get('string', '').encode('utf-8').decode('latin-1')
             else:
                 for jk, pk in JMAP.items():
                     x = v.get(jk)
+                    if isinstance(x, str):
+                        x = x.encode('utf-8').decode('latin-1')
                     d[pk] = ('true' if x else 'false') if isinstance(x, bool) else str(x)
             res[k.encode('utf-8').decode('latin-1')] = d
         return res
